@@ -29,7 +29,12 @@ def main(argv=None) -> int:
     try:
         if a.replay:
             obj = json.loads(open(a.replay).read())
-            mod.replay(ctx, obj)
+            if isinstance(obj.get("replay"), dict) and obj["replay"].get("stage") == "threads":
+                from .drivers import threads  # noqa: PLC0415
+
+                threads.replay(ctx, obj)
+            else:
+                mod.replay(ctx, obj)
         else:
             mod.run(ctx)
     except tlc.MachineryError as ex:
